@@ -417,11 +417,16 @@ func parseCtl(data string, memoizer plugintypes.Memoizer) (ctlFunctionType, stri
 	}
 	value, col, ok := strings.Cut(ctlVal, ";")
 	var colkey, colname string
+	var collection variables.RuleVariable
 	if ok {
 		colname, colkey, _ = strings.Cut(col, ":")
 		colkey = strings.TrimSpace(colkey)
+		var err error
+		collection, err = variables.Parse(strings.TrimSpace(colname))
+		if err != nil {
+			return ctlUnknown, "", 0, "", nil, fmt.Errorf("invalid collection in ctl: %w", err)
+		}
 	}
-	collection, _ := variables.Parse(strings.TrimSpace(colname))
 	var keyRx *regexp.Regexp
 	if isRegex, rxPattern := utils.HasRegex(colkey); isRegex {
 		if len(rxPattern) == 0 {
